@@ -73,6 +73,16 @@ PROPS = {
         'oracles': [_x('C11'), _f('comp_upload', 'oracle_c11_realscale')],
         'modelled': ['permit accounting of the upload-chunk semaphore, the sliding window, the io queue'],
     },
+    'C20': {
+        'lean': 'C20',
+        'corr': [_f('comp_crt', 'corr'), _f('comp_crt', 'sched_corr')],
+        'oracles': [_f('comp_crt', 'oracle')],
+        'modelled': ['crt.CRTTransferManager._submit_transfer / _shutdown / _release_semaphore, crt.S3ClientArgsCreator.get_crt_callback '
+                     'composition, crt.RenameTempFileHandler, crt.AfterDoneHandler, crt.CRTTransferCoordinator (Crt model)',
+                     'the native awscrt S3 client: replaced by a stub with the contract "on_done exactly once per created request"; '
+                     'both orders of completing finished_future and calling on_done are exercised',
+                     'crt.BotocoreCRTRequestSerializer: executed for a fifth of the sequences, not modelled'],
+    },
     'C18': {
         'lean': 'C18',
         'corr': [_f('comp_xfer', 'exec_corr')],
